@@ -303,3 +303,28 @@ func (r *Run) Finish(explanation string) int {
 	fmt.Printf("OK property=%s obligations=%d discharged=%d known_findings=%d wall=%.1fs\n", r.Property, len(obs), discharged, len(knownHits), time.Since(r.start).Seconds())
 	return 0
 }
+
+// ImportFrom runs another property's rules on the same program in a scratch Run and imports the
+// obligations of the selected rules under this property's rule ids (rename: other rule id -> own
+// rule id). Used where one structural clause is a necessary condition of two properties.
+func (r *Run) ImportFrom(other func(*Run), rename map[string]string, doc map[string]string) {
+	sub := &Run{Property: r.Property, Tier: r.Tier, Prog: r.Prog, Root: r.Root, start: r.start, extra: map[string]interface{}{}, dry: true}
+	other(sub)
+	for _, o := range sub.Obs {
+		nr, ok := rename[o.Rule]
+		if !ok {
+			continue
+		}
+		c := *o
+		c.Key = nr + strings.TrimPrefix(o.Key, o.Rule)
+		c.Rule = nr
+		r.Obs = append(r.Obs, &c)
+	}
+	for _, f := range sub.fatal {
+		r.Fatal("%s", f)
+	}
+	for k, v := range doc {
+		r.RuleDoc(k, v)
+	}
+	r.paths += sub.paths
+}
